@@ -3,6 +3,7 @@ import copy
 import json
 import random
 
+from harness import ref_text as RT
 from harness import core, gen_db as GD, gen_text as GT, impl_text as IT, observe as O, speller as SP
 from harness import parse_common as PC
 from harness.driver import Driver, DriverError
@@ -15,7 +16,7 @@ MODULES = ['PyDBMLProofs.Props.C02Sticky', 'PyDBMLProofs.Props.C02Table', 'PyDBM
 def mk_case(seed, varied=True, max_tables=4):
     rng = random.Random(seed)
     spec = GD.gen_spec(rng, wild=False, max_tables=max_tables)
-    spec = SP.normalise_for_spelling(spec, IT.norm_impl)
+    spec = SP.normalise_for_spelling(spec, RT.ref_norm)
     if not SP.spellable(spec):
         return None
     text, exp, info = SP.spell(spec, rng, {'varied': varied})
@@ -166,7 +167,7 @@ def main(tier, seed):
     m_ind = 300 if not ctx.thorough else 4000
     for k in range(m_ind):
         rng = random.Random(f'{seed}:ind:{k}')
-        spec = SP.normalise_for_spelling(GD.gen_spec(rng, wild=False, max_tables=3), IT.norm_impl)
+        spec = SP.normalise_for_spelling(GD.gen_spec(rng, wild=False, max_tables=3), RT.ref_norm)
         if not SP.spellable(spec):
             continue
         outs = []
